@@ -31,17 +31,22 @@ func ConvertVarsToReplacements(fSys filesys.FileSystem, k *types.Kustomization) 
 		return err
 	}
 
+	var converted []types.ReplacementField
 	for _, v := range k.Vars {
 		repl := &types.Replacement{}
 		if err := addTargets(repl, v.Name, files, fSys); err != nil {
 			return err
 		}
 		copySourceFromVars(repl, v)
+		converted = append(converted, types.ReplacementField{Replacement: *repl})
+	}
+	// The resource files are rewritten only after every var turned out to be convertible.
+	for _, v := range k.Vars {
 		if err := setPlaceholderValue(v.Name, files, fSys); err != nil {
 			return err
 		}
-		k.Replacements = append(k.Replacements, types.ReplacementField{Replacement: *repl})
 	}
+	k.Replacements = append(k.Replacements, converted...)
 	k.Vars = nil
 	return nil
 }
